@@ -79,8 +79,12 @@ CHECKS = {
         }, {
             "pkg": ODB, "funcs": ["VerifC18CloseDuringOpen"],
             "covers": {"VerifC18CloseDuringOpen": ["closed-during-open", "create-returned-a-store"]},
+        }, {
+            "pkg": OOO, "funcs": ["VerifC18ConnectCancelled"],
+            "covers": {"VerifC18ConnectCancelled": ["waiting-for-the-peer", "caller-context-ended"]},
         }],
         "assumptions": [
+            "pending head exchange (VerifC18ConnectCancelled, package oneonone): the real pairwise Connect waits for a peer that never shows up on the pairwise topic; the caller's (the store's) context ends: Connect returns and nothing keeps polling (virtual time)",
             "instance closed during an open (VerifC18CloseDuringOpen): Close is called while a Create's store constructor is still running (a constructor that waits); once both have returned no store or instance goroutine is left, closing again returns",
             "Drop at any moment (VerifC18DropDuring): Drop is started at ANY visible step of a local write or of a replication; Drop and the interrupted operation return, Close after Drop and a later write / load / second Drop return, no store goroutine is left",
             "a real BaseStore with replication enabled over stubs; Close is issued by a concurrent thread at ANY visible operation (lock, channel operation, goroutine start, block/cache effect) of a local write, of a replication (real Sync/replicator/fetcher/Join) or of a Load, or when idle; then Close is repeated 1..2 times; then one later operation (write, load, sync, close)",
@@ -217,7 +221,7 @@ CHECKS = {
     "C10": {
         "groups": [{
             "pkg": BS, "funcs": ["VerifC10Mixed"],
-            "covers": {"VerifC10Mixed": ["non-writer", "foreign-db", "wrong-hash", "bad-ancestor", "bad-signature", "re-announced", "claims-valid-address", "rejected-alone-first"]},
+            "covers": {"VerifC10Mixed": ["non-writer", "foreign-db", "wrong-hash", "bad-ancestor", "bad-signature", "re-announced", "claims-valid-address", "rejected-alone-first", "unfetchable-ancestor"]},
         }, {
             "pkg": BS, "funcs": ["VerifC10ForgedInBatch"],
             "covers": {"VerifC10ForgedInBatch": ["mixed-batch-processed", "genuine-head-alongside", "re-announced"]},
@@ -226,6 +230,7 @@ CHECKS = {
             "covers": {"VerifC10Before": ["tampered-readdressed", "non-writer", "bad-ancestor", "rejected-later", "restarted"]},
         }],
         "assumptions": [
+            "a sixth rejected companion: a writer's entry whose ancestor cannot be fetched (the failing fetch completes last of the burst)",
             "BEFORE clause (VerifC10Before): 1..2 valid entries are replicated (optionally a local write too), then an announcement arrives whose fetched log the join refuses (tampered re-addressed copy with the genuine identity block / non-writer / writer on a non-writer's ancestor); the earlier entries stay in log and view and are reloaded after a restart",
             "forged author inside a batch (VerifC10ForgedInBatch): writers w1 and w2; a forged-author entry naming w1's id (made by w2 with its own key), linked by a valid entry of w2 and linking on to w1's genuine head, so that it is judged before w1's 1..2 genuine entries of the same batch; w1's head is announced alongside or only afterwards; the genuine entries are in log and view at the latest after the re-announcement",
             "replica with an explicit write list; a two-head announcement mixing a valid head with a rejected one (non-writer author / other database / wrong claimed address / writer's entry on top of a non-writer's ancestor / writer's id with a signature that does not verify) at either position, or the rejected head alone BEFORE the valid one is announced; the rejected head keeps its own address or CLAIMS the valid entry's address (the claimed address of an announced head is chosen by the sender); through the real Sync -> replicator -> fetcher -> main loop -> replicationLoadComplete -> Join",
@@ -297,8 +302,12 @@ CHECKS = {
         }, {
             "pkg": ODB, "funcs": ["VerifC09LateJoin"],
             "covers": {"VerifC09LateJoin": ["peer-joined-B-after-announcements-of-A"]},
+        }, {
+            "pkg": ODB, "funcs": ["VerifC09SameRoot"],
+            "covers": {"VerifC09SameRoot": ["exchanged-on-heal", "beta-closed"]},
         }],
         "assumptions": [
+            "shared manifest root (VerifC09SameRoot): /orbitdb/<root>/alpha and /orbitdb/<root>/beta (hand-formed address) open on two instances; alpha written behind a partition and exchanged on heal: alpha's entries reach alpha, beta stays empty with status 0/0; closing beta does not stop alpha's exchanges",
             "messages a store builds (VerifC09LateJoin): a peer opens database A, A is written 1..3 more times (announcements), then the peer opens database B: every publication and direct message carries only heads of the database it names",
             "repeated close (VerifC09CloseTwice): database A is closed twice / closed then dropped / dropped then closed while database B of the same instance stays open: a write to B still emits its write event, reaches the peer, B loads, B's status describes its log",
             "shared network layer (VerifC09SlowConnect): both stores of one instance ask the instance's one direct channel to connect to the same peer while connecting takes time (gate in the network stand-in); database A is closed or dropped meanwhile; database B's heads still reach the peer",
@@ -338,8 +347,12 @@ CHECKS = {
             "pkg": BS, "funcs": ["VerifC05WriteDuringMerge"],
             "max_paths": {"quick": 60000, "thorough": 400000},
             "covers": {"VerifC05WriteDuringMerge": ["written-during-merge", "recovered"]},
+        }, {
+            "pkg": ODB, "funcs": ["VerifC05SharedOptions"],
+            "covers": {"VerifC05SharedOptions": ["options-value-reused", "restarted"]},
         }],
         "assumptions": [
+            "two databases of one instance (VerifC05SharedOptions): created with fresh option values or with ONE reused value, both written, clean instance close, new instance on the same directory: each database reloads exactly its own acknowledged entries",
             "write during a merge (VerifC05WriteDuringMerge): a local write starts at ANY visible step of the replication of a remote batch of 1..2 entries and runs until it blocks; the disk image at its acknowledgement (crash) and after a clean close both reload to a log holding it (and, after the clean close, the replicated batch)",
             "identity across a restart that designates the SAME directory by another string (a symbolic link natively, an alias in the disk model): same identity, the peer can still write",
             "history of STEPS steps on one store, each a local write (symbolic payload) or a real replication of a batch written by a remote writer (Sync -> replicator -> fetcher -> Join -> cache write -> EventReplicated)",
@@ -564,13 +577,14 @@ CHECKS = {
             "params": {"quick": {"H": 1}, "thorough": {"H": 1}},
             "max_paths": {"quick": 60000, "thorough": 400000},
             "timeout": {"quick": "10m", "thorough": "60m"},
-            "covers": {"VerifSysMalformed": ["raw-bytes", "ill-typed", "malformed-heads", "misrouted-valid-head", "foreign-head-for-A", "via-direct-channel", "via-topic-A", "via-topic-B", "burst", "valid-after", "address-of-a-failed-open"]},
+            "covers": {"VerifSysMalformed": ["raw-bytes", "ill-typed", "malformed-heads", "misrouted-valid-head", "foreign-head-for-A", "via-direct-channel", "via-topic-A", "via-topic-B", "burst", "valid-after", "address-of-a-failed-open", "ill-typed-with-heads"]},
         }, {
             "pkg": BS, "funcs": ["VerifC12RepeatedHeads"],
             "params": {"quick": {"R": 20}, "thorough": {"R": 40}},
             "covers": {"VerifC12RepeatedHeads": ["one-head-repeated", "many-distinct-heads", "abusive-message-handled", "with-tampered-heads"]},
         }],
         "assumptions": [
+            "an ILL-TYPED message that still carries well-formed head objects (a number where the address belongs, a head with next / refs links), followed by the honest relay whose head has no links: nothing of the first may stick to the decoding of the second",
             "the abusive message may also hold tampered copies (first / last / all of its heads): Sync still returns, nothing tampered is merged, later valid traffic is handled",
             "well-formed abusive heads messages (VerifC12RepeatedHeads): one genuine head listed R times, or R distinct genuine heads of one chain, in ONE message; Sync returns, each entry is merged once, a later valid message is handled",
             "raw direct-channel stream = ANY byte string of length 0..B (every byte symbolic): every varint incl. 10-byte overflowing ones and every declared length; real bufio.Reader, binary.ReadUvarint, io.ReadFull are interpreted",
